@@ -343,3 +343,85 @@ def unit_gamma_support(prop="C07"):
                             fname="ComplexGammatoneFilterBank._calculate_temp_support", to_case=tc, replay_module="rtc.c07")
     unit.__name__ = "gamma_support"
     return unit
+
+
+# ------------------------------------------------------------------------------------------
+# GaborFilterBank / ComplexGammatoneFilterBank .get_frequency_response: the LENGTH clause of C06 ("the half=True response ... with the
+# documented length": width, or with half=True width // 2 + 1 for even and (width + 1) // 2 for odd widths) and index safety of every store
+# (bin idx of an array of that length, for every period count). The VALUES are sums of Gaussians / gammatone magnitudes over the periodic
+# images - numerical, bounded by the stand-in; the loops are cut with the invariant "the array still has the documented length".
+# ------------------------------------------------------------------------------------------
+def _setup_resp(cls, half):
+    def _setup(ex, st):
+        from pyvc.api import SeqVal
+        nf, fi, w = api.sym("num_filts"), api.sym("filt_idx"), api.sym("width")
+        st.assume(z3.And(nf >= 1, fi >= 0, fi < nf, w >= 2, PI > 3, PI < 4))
+        cen, lo, hi, sd = (z3.Function(n_, I, R) for n_ in ("center_ang", "support_low_ang", "support_high_ang", "std_or_alpha"))
+        k = z3.Int("rk")
+        st.assume(z3.ForAll([k], z3.And(lo(k) < hi(k), sd(k) > 0, hi(k) > 0)))
+        fields = {"_centers_ang": SeqVal(nf, lambda j: cen(Z(j))), "_supports_ang": SeqVal(nf, lambda j: (lo(Z(j)), hi(Z(j)))),
+                  "_stds": SeqVal(nf, lambda j: sd(Z(j))), "_scale_l2_norm": api.sym("scale_l2_norm", "bool"),
+                  "_xis": SeqVal(nf, lambda j: cen(Z(j))), "_alphas": SeqVal(nf, lambda j: sd(Z(j))), "_cs": SeqVal(nf, lambda j: sd(Z(j))),
+                  "_offsets": SeqVal(nf, lambda j: cen(Z(j))), "_order": api.sym("order")}
+        api.mk_obj(st, "self", cls, fields)
+        st.assume(Z(st.fields[("self", "_order")]) >= 1)
+        st.env.update(filt_idx=fi, width=w, half=half)
+        for ax in api.math_axioms():
+            ex.axioms.append(ax)
+        ex.ctx = dict(w=w, half=half)
+    return _setup
+
+
+def contract_resp_length(cls, half, nloops):
+    def h_exp(ex, st, args, kwargs, node, ev):
+        return fresh("exp_value", "real")
+
+    def h_fact(ex, st, args, kwargs, node, ev):
+        return fresh("factorial_value", "real")
+
+    def h_binop(ex, st, op, a, b, n):
+        if isinstance(op, ast.Pow) and (symex.is_z3(b) or symex.is_z3(a)) and not (symex.concrete(b) and isinstance(b, int) and 0 <= b <= 4):
+            return fresh("power_value", "real")
+        return NotImplemented
+
+    dft = SpecFn(lambda ev: (z3.If(ev.ex.ctx["w"] % 2 == 1, (ev.ex.ctx["w"] + 1) / 2, ev.ex.ctx["w"] / 2 + 1)) if half else ev.ex.ctx["w"])
+    loops = {k: LoopSpec(kind="for", invariant=[("array_keeps_the_documented_length", "len(res) == DFT()")]) for k in range(nloops)}
+    return Contract(
+        target=f"filters:{cls}.get_frequency_response", uses=["A-REAL", "A-PYSEM", "A-MATH"],
+        consts={"DFT": dft, "np.pi": PI, "np.float64": Opaque("float64", "dtype"), "np.complex128": Opaque("complex128", "dtype")},
+        handlers={"np.exp": h_exp, "np.log": h_log, "np.sqrt": h_sqrt, "math.factorial": h_fact, "binop": h_binop},
+        loops=loops,
+        ensures=[("documented_length", "len(result) == DFT()")],
+    )
+
+
+def unit_resp_length(prop="C06"):
+    def unit(tier, known):
+        from contracts.registry import run_contract
+        from contracts import filters_tri as T
+        u = None
+
+        def tc_for(bank):
+            def tc(ob):
+                out = []
+                for c in T.to_case_frequency(ob):
+                    b = dict(c["bank"], bank=bank)
+                    b.pop("analytic", None)
+                    out.append(dict(c, bank=b))
+                return out
+            return tc
+        for cls, bank in (("GaborFilterBank", "gabor"),):
+            for half in (False, True):
+                r = run_contract(prop, ("filters", f"{cls}.get_frequency_response"), contract_resp_length(cls, half, 2),
+                                 [("half" if half else "full", _setup_resp(cls, half))], name="resp_length", fname=f"{cls}.get_frequency_response",
+                                 to_case=tc_for(bank), replay_module="rtc.c06")
+                if u is None:
+                    u = r
+                else:
+                    u.obligations += r.obligations
+                    u.outside += r.outside
+                    u.functions += r.functions
+                    u.assumptions |= r.assumptions
+        return u
+    unit.__name__ = "resp_length"
+    return unit
